@@ -40,7 +40,7 @@ func init() {
 				js = append(js, J("socket", "VX_C05_RawStream", a...))
 			}
 			js = append(js, J("socket", "VX_C05_RawSizeIndependent", 1, 2), J("socket", "VX_C05_RawSizeIndependent", 3, 0))
-			js = append(js, J("socket", "VX_C05_ReusedMessage", 1), J("socket", "VX_C20_Args", 2, -1, 3), J("proto/jsonproto", "VX_C05_JSONRetained", 1))
+			js = append(js, J("socket", "VX_C05_ReusedMessage", 1), J("socket", "VX_C20_Args", 2, -1, 3), J("proto/jsonproto", "VX_C05_JSONRetained", 1), J("socket", "VX_C05_RawRetained", 1), J("proto/thriftproto", "VX_C05_ThriftRetained", 1))
 			// thrift binary protocol (apache thrift THeader transport/protocol interpreted)
 			for g := 0; g <= 3; g++ {
 				js = append(js, J("proto/thriftproto", "VX_C05_ThriftBinary", g, 2))
